@@ -53,10 +53,8 @@ def cstrExpected (fn : String) (args : List String) : Option String :=
   | "valid", [b] => some (if (Chewing.CStr.utf8Decode (unhex b)).isSome then "1" else "0")
   | _, _ => none
 
-/-- functions that return a heap `CString` registered in `OWNED` (reviewed list; each is checked to be exported) -/
-def heapCStringFns : List String :=
-  ["chewing_get_KBString", "chewing_buffer_String", "chewing_commit_String", "chewing_aux_String",
-   "chewing_bopomofo_String", "chewing_zuin_String", "chewing_config_get_str", "chewing_cand_string_by_index"]
+/-- functions that return a heap `CString` registered in `OWNED` (generated from the source) -/
+def heapCStringFns : List String := (heapGetters.filter (fun g => g.2 == 0)).map (·.1)
 
 def isExported (f : String) : Bool := exportedFns.any (fun r => r.1 == f)
 
